@@ -16,7 +16,8 @@ PROPERTY_FILE = "C04/Property.v"
 RUN_IMPORTS = "From TV Require Import C01.Model C04.Model C04.Run."
 RUN_FN = "run_case"
 CHECK_FN = "check_case"
-INPUT_TYPE = "(nat * option N * N * option N * nat * bool * list gz_entry * list (list N))"
+INPUT_TYPE = "(option nat * option N * N * option N * nat * bool * list gz_entry * list (list N))"
+DEFAULT_MAX_HEADER = 65536          # HTTP1ConnectionParameters: max_header_size or 65536
 DEFAULT_MAX_BUFFER = 104857600      # iostream.BaseIOStream: max_buffer_size or 104857600
 
 
@@ -51,11 +52,41 @@ def run_impl(case):
             tbl.append([inlen, maxlen, out.decode("latin-1"), taillen, eof])
     case["_tbl"] = tbl          # the decompressor oracle handed to the model
     o = c01.canon(log, final, codes)
+    for r in o[0]:
+        r[3] = [[k, squash(v)] for k, v in r[3]]
     if extra["body_mismatch"]:
         o.append(G.Tag("callback-saw-different-request"))
     if not extra["closed_after"]:
         o.append(G.Tag("stream-left-open-after-eof"))
     return o
+
+
+def squash(v):
+    """header values longer than 2000 characters are abbreviated (first 16 + length), as C04.Run.squash_val does"""
+    if len(v) > 2000:
+        n = len(v)
+        return v[:16] + "".join(chr(x) for x in (n % 256, n // 256 % 256, n // 65536))
+    return v
+
+
+def gbytes_rle(b):
+    """bytes -> Gallina list N, long runs of one byte as `repeat` (keeps 64 KiB header blocks out of the literals)"""
+    parts, i, lit = [], 0, bytearray()
+    while i < len(b):
+        j = i
+        while j < len(b) and b[j] == b[i]:
+            j += 1
+        if j - i >= 64:
+            if lit:
+                parts.append(G.gbytes(bytes(lit)))
+                lit = bytearray()
+            parts.append("(repeat %d%%N (N.to_nat %d%%N))" % (b[i], j - i))
+        else:
+            lit += b[i:j]
+        i = j
+    if lit or not parts:
+        parts.append(G.gbytes(bytes(lit)))
+    return "(" + " ++ ".join(parts) + ")" if len(parts) > 1 else parts[0]
 
 
 def coq_input(case):
@@ -71,11 +102,12 @@ def coq_input(case):
             ents.append("(Some (%s, %s, %s, %s, %s))" % (G.gnat(e[0]), G.gnat(e[1]), G.gbytes(e[2].encode("latin-1")), G.gnat(e[3]), G.gbool(e[4])))
     ov = case.get("ov")
     mb = case["mb"]
+    mh = case["mh"]
     return "(%s, %s, %s, %s, %s, %s, %s, %s)" % (
-        G.gnat(case["mh"]), "(@None N)" if mb is None else "(Some %s)" % G.gn(mb), G.gn(case.get("sbuf") or DEFAULT_MAX_BUFFER),
+        "(@None nat)" if mh is None else "(Some %s)" % G.gnat(mh), "(@None N)" if mb is None else "(Some %s)" % G.gn(mb), G.gn(case.get("sbuf") or DEFAULT_MAX_BUFFER),
         "(@None N)" if ov is None else "(Some %s)" % G.gn(ov),
         G.gnat(case["cs"]), G.gbool(case["dec"]), G.glist(ents, "gz_entry"),
-        G.glist([G.gbytes(s) for s in segs_of(case)], "(list N)"))
+        G.glist([gbytes_rle(s) for s in segs_of(case)], "(list N)"))
 
 
 def mk(segs, mh=1000, mb=1000, ov=None, cs=64, dec=False, kind="", expect=None, sbuf=None):
@@ -313,6 +345,29 @@ def unset_limit_cases(rng):
     return out
 
 
+def default_header_cases(rng):
+    """max_header_size left unset (None, what HTTPServer passes by default) or 0: the limit is 65536.
+    Header blocks of 65536 + {-1, 0, +1, +100} bytes and an unterminated block, with a follow-up request."""
+    out = []
+    for mh in (None, 0):
+        for delta in (-1, 0, 1, 100):
+            base = b"GET /h HTTP/1.1\r\nHost: x\r\nX-Pad: "
+            pad = DEFAULT_MAX_HEADER + delta - len(base) - 4
+            data = base + b"p" * pad + b"\r\n\r\n" + NEXT
+            within = delta <= 0
+            for how in (("whole", "cut") if mh is None else ("whole",)):
+                if how == "whole":
+                    segs = [data]
+                else:
+                    k = rng.randrange(100, len(data) - 100)
+                    segs = [data[:40], data[40:k], data[k:-3], data[-3:]]
+                out.append(mk(segs, mh=mh, kind="default-header n=64KiB%+d" % delta,
+                              expect=("ok", [b"", b""]) if within else ("reject-no-request",)))
+        data = b"GET /h HTTP/1.1\r\nHost: x\r\nX-Pad: " + b"p" * (DEFAULT_MAX_HEADER + 50)
+        out.append(mk([data[:30000], data[30000:]], mh=mh, kind="default-header unterminated", expect=("reject-no-request",)))
+    return out
+
+
 def corpus_cases():
     import random
     rng = random.Random(4)
@@ -335,6 +390,7 @@ def gen_cases(rng, tier):
         out += override_cases(rng, L)
     out += zero_limit_cases(rng)
     out += unset_limit_cases(rng)
+    out += default_header_cases(rng)
     for mh in ((40, 64, 256) if tier == "quick" else (36, 40, 64, 256, 1000)):
         out += header_cases(rng, mh)
     for L in ((16, 64) if tier == "quick" else (1, 16, 64, 300)):
@@ -424,7 +480,7 @@ ASSUMPTIONS = [
     "_GzipMessageDelegate.finish: decompressor.flush() returns no data (otherwise finish raises ValueError; not observed for any generated body)",
     "max_buffer_size (IOStream read buffer cap, default 100MB) is far above every limit used and is not modelled",
 ]
-RULE = ("max_body_size=None with stream max_buffer_size 3000 and the 100 MB default (limit = buffer size), sizes at the limit +-1; limit 0 (a real configuration: no request bodies) x body sizes {0,1,50} x {Content-Length, chunked, gzip} x override {none,0,100}; limits L in {16,64,1000} (thorough adds 1,300) x body sizes {L-1,L,L+1,10L} x framing {Content-Length, chunked with random chunk splits, one declared chunk} "
+RULE = ("max_header_size None/0 (the HTTPServer default: limit 65536) with header blocks of 65536 + {-1,0,+1,+100} bytes and an unterminated one; max_body_size=None with stream max_buffer_size 3000 and the 100 MB default (limit = buffer size), sizes at the limit +-1; limit 0 (a real configuration: no request bodies) x body sizes {0,1,50} x {Content-Length, chunked, gzip} x override {none,0,100}; limits L in {16,64,1000} (thorough adds 1,300) x body sizes {L-1,L,L+1,10L} x framing {Content-Length, chunked with random chunk splits, one declared chunk} "
         "x segmentations; per-request override below/above L; header blocks of mh-1, mh, mh+1, 10mh bytes; decompress_request with gzip bodies that inflate to "
         "{L-1,L,L+1,10L,100L} (compressible bombs and incompressible data, Content-Length and chunked, chunk_size 4..1000), corrupt/truncated/two-member gzip, "
         "decoder on with plain bodies; every chunk split of bodies of 3..5 bytes (thorough 0..7) around L=4; C01's request grammar under small limits")
